@@ -266,6 +266,17 @@ func apiCalls(text string, emit func(apiEvent)) {
 		root := fs.NewFile("root", `{"a": @t}`)
 		r := jschema.FromFile(root)
 		if e := r.AddType("@t", jschema.New("@t", text)); e != nil {
+			// the type does not load: the converted error says what the type's own Check says (file, position, code)
+			own, ok := jschema.New("@t", text).Check().(jerr.DocumentError)
+			if !ok {
+				return nil
+			}
+			ce := kit.ConvertError(root, e)
+			if ce.Filename() != own.Filename() || ce.Position() != own.Position() || ce.ErrCode() != own.ErrCode() {
+				de := jerr.NewDocumentError(fs.NewFile("@t", text), jerr.Format(jerr.ErrGeneric, fmt.Sprintf("kit.ConvertError of the AddType error: file %q position %d code %d, the type's own Check: file %q position %d code %d",
+					ce.Filename(), ce.Position(), ce.ErrCode(), own.Filename(), own.Position(), own.ErrCode())))
+				return wrapForeign{de}
+			}
 			return nil
 		}
 		e := r.Check()
@@ -284,6 +295,11 @@ func apiCalls(text string, emit func(apiEvent)) {
 }
 
 // wrapNoRender: a library error whose position is reported but whose rendering is not attempted (it would index outside the file)
+// wrapForeign is reported as an error that is not a library error (it has none of the accessors).
+type wrapForeign struct{ d jerr.DocumentError }
+
+func (w wrapForeign) Error() string { return w.d.Message() }
+
 type wrapNoRender struct{ d jerr.DocumentError }
 
 func (w wrapNoRender) Error() string    { return w.d.Message() }
